@@ -1,96 +1,191 @@
 package main
 
 import (
+	"crypto/sha256"
+	"encoding/hex"
+	"encoding/json"
 	"fmt"
 	"go/ast"
+	"go/importer"
 	"go/parser"
 	"go/token"
+	"go/types"
 	"os"
 	"path/filepath"
 	"sort"
 	"strings"
 )
 
-// Lock acquisition order (Gen/Locks.lean, `lockEdges`): a may-analysis over the methods of the types
-// that own mutexes. For every place where a mutex of class B is acquired — directly, or somewhere
-// inside a method that is called — while a mutex of class A of the same receiver may be held, the
-// edge (A, B, function) is emitted.
+// Lock acquisition order (Gen/Locks.lean, `lockEdges`): a typed may-analysis (go/types, source
+// importer) over every function and method of the packages that own or reach the mutexes.
+// For every place where a mutex of class B is acquired — directly, or somewhere inside a function
+// that may be called — while a mutex of class A may be held, the edge (A, B, function) is emitted.
+// A class is `Type.field` for a sync.Mutex / sync.RWMutex field (`Type.Mutex` for an embedded one),
+// `var.<name>` for a mutex held in a variable.
 //
-//   - statement-ordered walk of each method; recv.M.Lock()/RLock() adds M to the held set,
-//     Unlock()/RUnlock() removes it, `defer recv.M.Unlock()` keeps it to the end; after a branching
-//     construct the held set is the UNION of the branches (may-held);
-//   - acq(f) = classes acquired in f or in any method f may call (fix-point); a call x.name(...) is
-//     resolved by method name: to the receiver's type if x is the receiver, else to every owner type
-//     that has a method of that name (over-approximation);
-//   - `go` statements start with nothing held; a function literal passed to a call, assigned, or
-//     deferred is walked with the locks held where it is written.
-// Not seen (trusted base): calls through interfaces and stored callbacks, locks reached through
-// other names, sync.Cond.Wait releasing its mutex, channels and wait groups (they are not mutexes).
+//   - statement-ordered walk; X.Lock()/RLock() adds the class of X to the held set, Unlock()/RUnlock()
+//     removes it, `defer X.Unlock()` keeps it to the end; after a branching construct the held set is
+//     the UNION of the branches (may-held);
+//   - acq(f) = classes acquired in f or in anything f may call (fix-point). Static calls and calls of
+//     concrete methods resolve exactly; a call through an interface resolves to every method of that
+//     name in the analysed packages; a call of a func-typed struct field resolves to every function
+//     literal or method value assigned to a field of that name (composite literals, assignments);
+//   - `go` statements start with nothing held and do not count for the spawner; a function literal
+//     is walked where it is written, with the locks held there.
+// Not seen (trusted base): function values passed as arguments and stored by the callee, locks taken
+// by code outside these packages, sync.Cond.Wait releasing its mutex, channels and wait groups.
 
-type ownerType struct {
-	dir, typ string
-	mutexes  map[string]bool // field names; "Mutex" = embedded sync.Mutex
-}
-
-var lockOwners = []ownerType{
-	{"src/app", "ProjectRunner", map[string]bool{"procConfMutex": true, "logsMutex": true, "statesMutex": true, "runProcMutex": true, "doneProcMutex": true}},
-	{"src/app", "Process", map[string]bool{"stateMtx": true, "timeMutex": true, "mtxStopFn": true, "Mutex": true}},
-	{"src/pclog", "ProcessLogBuffer", map[string]bool{"mx": true}},
-	{"src/api", "PcApi", map[string]bool{"wsMtx": true}},
-}
-
-type loMethod struct {
-	owner *ownerType
-	name  string
-	recv  string
-	body  *ast.BlockStmt
-	acq   map[string]bool
-}
+var lockOrderDirs = []string{"src/app", "src/pclog", "src/api", "src/health"}
 
 type lockEdge struct{ From, To, Func string }
 
-type loWalker struct {
-	methods map[string][]*loMethod // by method name
-	cur     *loMethod
-	where   string
-	edges   map[lockEdge]bool
-	direct  map[string]bool // classes acquired directly or via callees in the current method (this round)
+type loFunc struct {
+	key  string
+	body *ast.BlockStmt
+	info *types.Info
+	acq  map[string]bool
 }
 
-func unionSet(a, b map[string]bool) map[string]bool {
-	o := copySet(a)
-	for k := range b {
-		o[k] = true
+type loWorld struct {
+	funcs      map[string]*loFunc   // by qualified key
+	byName     map[string][]*loFunc // methods by bare name (interface calls)
+	fieldFuncs map[string][]string  // func-typed field name -> keys of functions assigned to it
+	lits       map[*ast.FuncLit]string
+}
+
+func typeKeyOf(t types.Type) string {
+	for {
+		if p, ok := t.(*types.Pointer); ok {
+			t = p.Elem()
+			continue
+		}
+		break
 	}
-	return o
+	if n, ok := t.(*types.Named); ok {
+		return n.Obj().Name()
+	}
+	return ""
 }
 
-func (w *loWalker) class(m string) string { return w.cur.owner.typ + "." + m }
+func funcKey(f *types.Func) string {
+	sig, _ := f.Type().(*types.Signature)
+	if sig != nil && sig.Recv() != nil {
+		return typeKeyOf(sig.Recv().Type()) + "." + f.Name()
+	}
+	if f.Pkg() != nil {
+		return f.Pkg().Name() + "." + f.Name()
+	}
+	return f.Name()
+}
+
+func isSyncMutex(t types.Type) bool {
+	for {
+		if p, ok := t.(*types.Pointer); ok {
+			t = p.Elem()
+			continue
+		}
+		break
+	}
+	if n, ok := t.(*types.Named); ok && n.Obj().Pkg() != nil && n.Obj().Pkg().Path() == "sync" {
+		return n.Obj().Name() == "Mutex" || n.Obj().Name() == "RWMutex"
+	}
+	return false
+}
+
+// lockClass: the class of the mutex operated on by the call `se(...)` (se = X.Lock etc.), "" if none.
+func lockClass(info *types.Info, se *ast.SelectorExpr) (cls string, op string) {
+	switch se.Sel.Name {
+	case "Lock", "RLock", "Unlock", "RUnlock":
+	default:
+		return "", ""
+	}
+	sel := info.Selections[se]
+	if sel == nil || sel.Kind() != types.MethodVal {
+		return "", ""
+	}
+	fn, ok := sel.Obj().(*types.Func)
+	if !ok || fn.Pkg() == nil || fn.Pkg().Path() != "sync" {
+		return "", ""
+	}
+	op = se.Sel.Name
+	xt := info.TypeOf(se.X)
+	if xt == nil {
+		return "", ""
+	}
+	if isSyncMutex(xt) {
+		// X is the mutex itself: a field Y.f, or a variable
+		switch x := se.X.(type) {
+		case *ast.SelectorExpr:
+			if yt := info.TypeOf(x.X); yt != nil {
+				if n := typeKeyOf(yt); n != "" {
+					return n + "." + x.Sel.Name, op
+				}
+			}
+			return "var." + x.Sel.Name, op
+		case *ast.Ident:
+			return "var." + x.Name, op
+		}
+		return "var.?", op
+	}
+	// promoted through an embedded sync.Mutex
+	if n := typeKeyOf(xt); n != "" && len(sel.Index()) > 1 {
+		return n + ".Mutex", op
+	}
+	return "", ""
+}
+
+type loWalker struct {
+	w      *loWorld
+	cur    *loFunc
+	edges  map[lockEdge]bool
+	direct map[string]bool
+}
 
 func (w *loWalker) acquire(cls string, held map[string]bool) {
 	w.direct[cls] = true
 	for h := range held {
-		w.edges[lockEdge{h, cls, w.where}] = true
+		w.edges[lockEdge{h, cls, w.cur.key}] = true
 	}
 }
 
-func (w *loWalker) call(se *ast.SelectorExpr, held map[string]bool) {
-	name := se.Sel.Name
-	cands := w.methods[name]
-	if id, ok := se.X.(*ast.Ident); ok && id.Name == w.cur.recv {
-		own := []*loMethod{}
-		for _, c := range cands {
-			if c.owner == w.cur.owner {
-				own = append(own, c)
+func (w *loWalker) callees(call *ast.CallExpr) []*loFunc {
+	info := w.cur.info
+	var out []*loFunc
+	add := func(k string) {
+		if f := w.w.funcs[k]; f != nil {
+			out = append(out, f)
+		}
+	}
+	switch fun := call.Fun.(type) {
+	case *ast.SelectorExpr:
+		if sel := info.Selections[fun]; sel != nil {
+			switch sel.Kind() {
+			case types.MethodVal:
+				fn, _ := sel.Obj().(*types.Func)
+				if fn == nil {
+					return nil
+				}
+				if _, isIface := sel.Recv().Underlying().(*types.Interface); isIface {
+					out = append(out, w.w.byName[fn.Name()]...)
+				} else {
+					add(funcKey(fn))
+				}
+			case types.FieldVal:
+				if _, ok := sel.Obj().Type().Underlying().(*types.Signature); ok {
+					for _, k := range w.w.fieldFuncs[fun.Sel.Name] {
+						add(k)
+					}
+				}
 			}
+		} else if fn, ok := info.Uses[fun.Sel].(*types.Func); ok {
+			add(funcKey(fn)) // pkg.Func
 		}
-		cands = own
-	}
-	for _, c := range cands {
-		for cls := range c.acq {
-			w.acquire(cls, held)
+	case *ast.Ident:
+		if fn, ok := info.Uses[fun].(*types.Func); ok {
+			add(funcKey(fn))
 		}
 	}
+	return out
 }
 
 func (w *loWalker) expr(e ast.Expr, held map[string]bool) {
@@ -100,33 +195,27 @@ func (w *loWalker) expr(e ast.Expr, held map[string]bool) {
 	ast.Inspect(e, func(n ast.Node) bool {
 		switch x := n.(type) {
 		case *ast.FuncLit:
+			if _, stored := w.w.lits[x]; stored {
+				return false // analysed as a function of its own (assigned to a func-typed field)
+			}
 			w.block(x.Body.List, copySet(held))
 			return false
 		case *ast.CallExpr:
 			if se, ok := x.Fun.(*ast.SelectorExpr); ok {
-				if p := selPath(se.X, w.cur.recv); p != "" && w.cur.owner.mutexes[p] {
-					switch se.Sel.Name {
-					case "Lock", "RLock":
-						w.acquire(w.class(p), held)
-						held[w.class(p)] = true
-						return false
-					case "Unlock", "RUnlock":
-						delete(held, w.class(p))
-						return false
+				if cls, op := lockClass(w.cur.info, se); cls != "" {
+					if op == "Lock" || op == "RLock" {
+						w.acquire(cls, held)
+						held[cls] = true
+					} else {
+						delete(held, cls)
 					}
+					return false
 				}
-				if id, ok := se.X.(*ast.Ident); ok && id.Name == w.cur.recv && w.cur.owner.mutexes["Mutex"] {
-					switch se.Sel.Name {
-					case "Lock":
-						w.acquire(w.class("Mutex"), held)
-						held[w.class("Mutex")] = true
-						return false
-					case "Unlock":
-						delete(held, w.class("Mutex"))
-						return false
-					}
+			}
+			for _, c := range w.callees(x) {
+				for cls := range c.acq {
+					w.acquire(cls, held)
 				}
-				w.call(se, held)
 			}
 		}
 		return true
@@ -139,8 +228,15 @@ func (w *loWalker) block(stmts []ast.Stmt, held map[string]bool) {
 	}
 }
 
+// spawned walks the body of a new goroutine: nothing held, and what it acquires is not acquired by the spawner.
+func (w *loWalker) spawned(body []ast.Stmt) {
+	saved := w.direct
+	w.direct = map[string]bool{}
+	w.block(body, map[string]bool{})
+	w.direct = saved
+}
+
 func (w *loWalker) stmt(s ast.Stmt, held map[string]bool) {
-	// after a branching construct: union of what the branches may hold
 	join := func(outs []map[string]bool) {
 		for _, o := range outs {
 			for k := range o {
@@ -167,23 +263,23 @@ func (w *loWalker) stmt(s ast.Stmt, held map[string]bool) {
 		w.expr(x.X, held)
 	case *ast.DeferStmt:
 		if se, ok := x.Call.Fun.(*ast.SelectorExpr); ok {
-			if p := selPath(se.X, w.cur.recv); p != "" && w.cur.owner.mutexes[p] && (se.Sel.Name == "Unlock" || se.Sel.Name == "RUnlock") {
+			if cls, op := lockClass(w.cur.info, se); cls != "" && (op == "Unlock" || op == "RUnlock") {
 				return // held to the end
-			}
-			if id, ok := se.X.(*ast.Ident); ok && id.Name == w.cur.recv && w.cur.owner.mutexes["Mutex"] && se.Sel.Name == "Unlock" {
-				return
 			}
 		}
 		w.expr(x.Call, copySet(held))
 	case *ast.GoStmt:
 		if fl, ok := x.Call.Fun.(*ast.FuncLit); ok {
-			w.block(fl.Body.List, map[string]bool{})
+			w.spawned(fl.Body.List)
 			for _, a := range x.Call.Args {
 				w.expr(a, held)
 			}
 			return
 		}
+		saved := w.direct
+		w.direct = map[string]bool{}
 		w.expr(x.Call, map[string]bool{})
+		w.direct = saved
 	case *ast.ReturnStmt:
 		for _, r := range x.Results {
 			w.expr(r, held)
@@ -210,9 +306,8 @@ func (w *loWalker) stmt(s ast.Stmt, held map[string]bool) {
 		if x.Post != nil {
 			w.stmt(x.Post, held)
 		}
-		// twice: what the body leaves held may be held when it runs again
 		join([]map[string]bool{branch(x.Body.List)})
-		join([]map[string]bool{branch(x.Body.List)})
+		join([]map[string]bool{branch(x.Body.List)}) // what the body leaves held may be held when it runs again
 	case *ast.RangeStmt:
 		w.expr(x.X, held)
 		join([]map[string]bool{branch(x.Body.List)})
@@ -267,72 +362,209 @@ func (w *loWalker) stmt(s ast.Stmt, held map[string]bool) {
 	}
 }
 
-func lockOrderFacts(root string) ([]lockEdge, []string, error) {
-	methods := map[string][]*loMethod{}
-	var all []*loMethod
-	seenDir := map[string][]*ast.File{}
-	for i := range lockOwners {
-		o := &lockOwners[i]
-		files, ok := seenDir[o.dir]
-		if !ok {
-			fset := token.NewFileSet()
-			ents, err := os.ReadDir(filepath.Join(root, o.dir))
-			if err != nil {
-				return nil, nil, err
-			}
-			for _, e := range ents {
-				n := e.Name()
-				if !strings.HasSuffix(n, ".go") || strings.HasSuffix(n, "_test.go") || strings.HasPrefix(n, "verif_") || strings.HasSuffix(n, "_windows.go") {
-					continue
-				}
-				f, err := parser.ParseFile(fset, filepath.Join(root, o.dir, n), nil, 0)
-				if err != nil {
-					return nil, nil, err
-				}
-				files = append(files, f)
-			}
-			seenDir[o.dir] = files
+type lockOrderResult struct {
+	Edges   []lockEdge
+	Classes []string
+}
+
+func goSources(root, dir string) ([]string, error) {
+	ents, err := os.ReadDir(filepath.Join(root, dir))
+	if err != nil {
+		return nil, err
+	}
+	var out []string
+	for _, e := range ents {
+		n := e.Name()
+		if !strings.HasSuffix(n, ".go") || strings.HasSuffix(n, "_test.go") || strings.HasSuffix(n, "_windows.go") {
+			continue
 		}
-		for _, f := range files {
-			for _, d := range f.Decls {
-				fd, ok := d.(*ast.FuncDecl)
-				if !ok || fd.Recv == nil || fd.Body == nil || len(fd.Recv.List) != 1 || len(fd.Recv.List[0].Names) != 1 {
-					continue
+		src, err := os.ReadFile(filepath.Join(root, dir, n))
+		if err != nil {
+			return nil, err
+		}
+		head := string(src)
+		if i := strings.Index(head, "\npackage "); i >= 0 {
+			head = head[:i]
+		}
+		if strings.Contains(head, "//go:build verif") || strings.Contains(head, "//go:build windows") {
+			continue // the instrumentation files of the harness are not product code
+		}
+		out = append(out, filepath.Join(root, dir, n))
+	}
+	sort.Strings(out)
+	return out, nil
+}
+
+func lockOrderFacts(root, cacheDir string) (*lockOrderResult, error) {
+	// the result is a function of the sources: cache it by their content
+	h := sha256.New()
+	var files [][]string
+	for _, d := range lockOrderDirs {
+		fs, err := goSources(root, d)
+		if err != nil {
+			return nil, err
+		}
+		files = append(files, fs)
+		for _, f := range fs {
+			b, _ := os.ReadFile(f)
+			fmt.Fprintf(h, "%s %d\n", f, len(b))
+			h.Write(b)
+		}
+	}
+	if exe, err := os.Executable(); err == nil {
+		self, _ := os.ReadFile(exe)
+		h.Write(self)
+	}
+	cacheFile := filepath.Join(cacheDir, "lockorder."+hex.EncodeToString(h.Sum(nil))[:24]+".json")
+	if b, err := os.ReadFile(cacheFile); err == nil && os.Getenv("LOCK_DEBUG") == "" {
+		var r lockOrderResult
+		if json.Unmarshal(b, &r) == nil {
+			return &r, nil
+		}
+	}
+	cwd, _ := os.Getwd()
+	if err := os.Chdir(root); err != nil {
+		return nil, err
+	}
+	defer os.Chdir(cwd)
+	fset := token.NewFileSet()
+	imp := importer.ForCompiler(fset, "source", nil)
+	world := &loWorld{funcs: map[string]*loFunc{}, byName: map[string][]*loFunc{}, fieldFuncs: map[string][]string{}, lits: map[*ast.FuncLit]string{}}
+	classes := map[string]bool{}
+	type pkgInfo struct {
+		files []*ast.File
+		info  *types.Info
+	}
+	var pkgs []pkgInfo
+	for i, d := range lockOrderDirs {
+		var afs []*ast.File
+		for _, f := range files[i] {
+			af, err := parser.ParseFile(fset, f, nil, 0)
+			if err != nil {
+				return nil, err
+			}
+			afs = append(afs, af)
+		}
+		info := &types.Info{Selections: map[*ast.SelectorExpr]*types.Selection{}, Types: map[ast.Expr]types.TypeAndValue{},
+			Uses: map[*ast.Ident]types.Object{}, Defs: map[*ast.Ident]types.Object{}}
+		var firstErr error
+		conf := types.Config{Importer: imp, Error: func(e error) {
+			if firstErr == nil {
+				firstErr = e
+			}
+		}}
+		pkg, _ := conf.Check("github.com/f1bonacc1/process-compose/"+d, fset, afs, info)
+		if firstErr != nil {
+			return nil, fmt.Errorf("type check of %s: %v", d, firstErr)
+		}
+		pkgs = append(pkgs, pkgInfo{afs, info})
+		// mutex classes: fields of named structs
+		for _, name := range pkg.Scope().Names() {
+			tn, ok := pkg.Scope().Lookup(name).(*types.TypeName)
+			if !ok {
+				continue
+			}
+			st, ok := tn.Type().Underlying().(*types.Struct)
+			if !ok {
+				continue
+			}
+			for k := 0; k < st.NumFields(); k++ {
+				if f := st.Field(k); isSyncMutex(f.Type()) {
+					classes[name+"."+f.Name()] = true
 				}
-				tn := ""
-				switch rt := fd.Recv.List[0].Type.(type) {
-				case *ast.StarExpr:
-					if id, ok := rt.X.(*ast.Ident); ok {
-						tn = id.Name
-					}
-				case *ast.Ident:
-					tn = rt.Name
-				}
-				if tn != o.typ {
-					continue
-				}
-				m := &loMethod{owner: o, name: fd.Name.Name, recv: fd.Recv.List[0].Names[0].Name, body: fd.Body, acq: map[string]bool{}}
-				methods[m.name] = append(methods[m.name], m)
-				all = append(all, m)
 			}
 		}
 	}
-	sort.Slice(all, func(i, j int) bool {
-		if all[i].owner.typ != all[j].owner.typ {
-			return all[i].owner.typ < all[j].owner.typ
+	// functions
+	for _, p := range pkgs {
+		for _, af := range p.files {
+			for _, d := range af.Decls {
+				fd, ok := d.(*ast.FuncDecl)
+				if !ok || fd.Body == nil {
+					continue
+				}
+				fn, ok := p.info.Defs[fd.Name].(*types.Func)
+				if !ok {
+					continue
+				}
+				f := &loFunc{key: funcKey(fn), body: fd.Body, info: p.info, acq: map[string]bool{}}
+				world.funcs[f.key] = f
+				if fd.Recv != nil {
+					world.byName[fd.Name.Name] = append(world.byName[fd.Name.Name], f)
+				}
+			}
 		}
-		return all[i].name < all[j].name
-	})
+	}
+	// function values stored in func-typed struct fields
+	nlit := 0
+	for _, p := range pkgs {
+		info := p.info
+		store := func(field string, v ast.Expr) {
+			switch x := v.(type) {
+			case *ast.FuncLit:
+				if _, ok := world.lits[x]; !ok {
+					nlit++
+					k := fmt.Sprintf("func-in-field.%s#%d", field, nlit)
+					world.lits[x] = k
+					world.funcs[k] = &loFunc{key: k, body: x.Body, info: info, acq: map[string]bool{}}
+				}
+				world.fieldFuncs[field] = append(world.fieldFuncs[field], world.lits[x])
+			case *ast.SelectorExpr:
+				if sel := info.Selections[x]; sel != nil && sel.Kind() == types.MethodVal {
+					if fn, ok := sel.Obj().(*types.Func); ok {
+						world.fieldFuncs[field] = append(world.fieldFuncs[field], funcKey(fn))
+					}
+				} else if fn, ok := info.Uses[x.Sel].(*types.Func); ok {
+					world.fieldFuncs[field] = append(world.fieldFuncs[field], funcKey(fn))
+				}
+			case *ast.Ident:
+				if fn, ok := info.Uses[x].(*types.Func); ok {
+					world.fieldFuncs[field] = append(world.fieldFuncs[field], funcKey(fn))
+				}
+			}
+		}
+		for _, af := range p.files {
+			ast.Inspect(af, func(n ast.Node) bool {
+				switch x := n.(type) {
+				case *ast.KeyValueExpr:
+					if id, ok := x.Key.(*ast.Ident); ok {
+						if t := info.TypeOf(x.Value); t != nil {
+							if _, isFn := t.Underlying().(*types.Signature); isFn {
+								store(id.Name, x.Value)
+							}
+						}
+					}
+				case *ast.AssignStmt:
+					for i, l := range x.Lhs {
+						if se, ok := l.(*ast.SelectorExpr); ok && i < len(x.Rhs) {
+							if sel := info.Selections[se]; sel != nil && sel.Kind() == types.FieldVal {
+								if _, isFn := sel.Obj().Type().Underlying().(*types.Signature); isFn {
+									store(se.Sel.Name, x.Rhs[i])
+								}
+							}
+						}
+					}
+				}
+				return true
+			})
+		}
+	}
+	keys := []string{}
+	for k := range world.funcs {
+		keys = append(keys, k)
+	}
+	sort.Strings(keys)
 	var edges map[lockEdge]bool
-	for round := 0; round < 12; round++ {
+	for round := 0; round < 20; round++ {
 		edges = map[lockEdge]bool{}
 		changed := false
-		for _, m := range all {
-			w := &loWalker{methods: methods, cur: m, where: m.owner.typ + "." + m.name, edges: edges, direct: map[string]bool{}}
-			w.block(m.body.List, map[string]bool{})
+		for _, k := range keys {
+			f := world.funcs[k]
+			w := &loWalker{w: world, cur: f, edges: edges, direct: map[string]bool{}}
+			w.block(f.body.List, map[string]bool{})
 			for c := range w.direct {
-				if !m.acq[c] {
-					m.acq[c] = true
+				if !f.acq[c] {
+					f.acq[c] = true
 					changed = true
 				}
 			}
@@ -341,48 +573,103 @@ func lockOrderFacts(root string) ([]lockEdge, []string, error) {
 			break
 		}
 	}
-	var out []lockEdge
+	if os.Getenv("LOCK_DEBUG") != "" {
+		for _, k := range keys {
+			if len(world.funcs[k].acq) > 0 {
+				fmt.Fprintln(os.Stderr, "acq", k, setList(world.funcs[k].acq))
+			}
+		}
+		for f, l := range world.fieldFuncs {
+			fmt.Fprintln(os.Stderr, "field", f, l)
+		}
+	}
+	res := &lockOrderResult{}
 	for e := range edges {
-		out = append(out, e)
+		res.Edges = append(res.Edges, e)
+		classes[e.From] = true
+		classes[e.To] = true
 	}
-	sort.Slice(out, func(i, j int) bool {
-		if out[i].From != out[j].From {
-			return out[i].From < out[j].From
+	sort.Slice(res.Edges, func(i, j int) bool {
+		a, b := res.Edges[i], res.Edges[j]
+		if a.From != b.From {
+			return a.From < b.From
 		}
-		if out[i].To != out[j].To {
-			return out[i].To < out[j].To
+		if a.To != b.To {
+			return a.To < b.To
 		}
-		return out[i].Func < out[j].Func
+		return a.Func < b.Func
 	})
-	classes := []string{}
-	for i := range lockOwners {
-		for m := range lockOwners[i].mutexes {
-			classes = append(classes, lockOwners[i].typ+"."+m)
-		}
+	for c := range classes {
+		res.Classes = append(res.Classes, c)
 	}
-	sort.Strings(classes)
-	return out, classes, nil
+	sort.Strings(res.Classes)
+	if b, err := json.Marshal(res); err == nil {
+		_ = os.MkdirAll(cacheDir, 0o755)
+		_ = os.WriteFile(cacheFile, b, 0o644)
+	}
+	return res, nil
 }
 
-func leanLockOrder(root string, status map[string]string, facts map[string]any) string {
+func leanLockOrder(root, cacheDir string, status map[string]string, facts map[string]any) string {
 	var b strings.Builder
-	edges, classes, err := lockOrderFacts(root)
-	b.WriteString("/-- every mutex class of the owner types -/\n")
-	b.WriteString("def lockClasses : List String := " + leanStringList(classes) + "\n\n")
-	b.WriteString("/-- (held, acquired, function): a mutex of class `acquired` may be taken, in `function` or in something it calls, while one of class `held` is held -/\n")
+	res, err := lockOrderFacts(root, cacheDir)
+	if err != nil {
+		res = &lockOrderResult{}
+	}
+	b.WriteString("/-- every mutex class: `Type.field` for the sync.Mutex / sync.RWMutex fields of the analysed packages (`Type.Mutex`: embedded), `var.name` for mutexes held in variables -/\n")
+	b.WriteString("def lockClasses : List String := " + leanStringList(res.Classes) + "\n\n")
+	b.WriteString("/-- (held, acquired, function): a mutex of class `acquired` may be taken, in `function` or in something it may call, while one of class `held` may be held -/\n")
 	b.WriteString("def lockEdges : List (String × String × String) := [")
-	if err == nil {
-		for i, e := range edges {
-			if i > 0 {
-				b.WriteString(",")
-			}
-			fmt.Fprintf(&b, "\n  (%q, %q, %q)", e.From, e.To, e.Func)
+	for i, e := range res.Edges {
+		if i > 0 {
+			b.WriteString(",")
 		}
-		status["Locks.lockEdges"] = "ok"
-		facts["lockEdges"] = edges
-	} else {
-		status["Locks.lockEdges"] = "ERROR"
+		fmt.Fprintf(&b, "\n  (%q, %q, %q)", e.From, e.To, e.Func)
+	}
+	b.WriteString("]\n\n")
+	// a rank certificate (longest-path layering); the kernel checks it against the edges. On a cycle the
+	// members of the cycle keep rank 0 and the check in PC.Props.C20 fails.
+	rank := map[string]int{}
+	for _, c := range res.Classes {
+		rank[c] = 0
+	}
+	for round := 0; round <= len(res.Classes); round++ {
+		changed := false
+		for _, e := range res.Edges {
+			if e.From != e.To && rank[e.To] < rank[e.From]+1 && rank[e.From]+1 <= len(res.Classes) {
+				rank[e.To] = rank[e.From] + 1
+				changed = true
+			}
+		}
+		if !changed {
+			break
+		}
+	}
+	cyclic := false
+	for _, e := range res.Edges {
+		if rank[e.From] >= rank[e.To] {
+			cyclic = true
+		}
+	}
+	b.WriteString("/-- rank certificate computed by the extractor (checked in the kernel against `lockEdges`) -/\n")
+	b.WriteString("def lockRank : List (String × Nat) := [")
+	for i, c := range res.Classes {
+		if i > 0 {
+			b.WriteString(", ")
+		}
+		fmt.Fprintf(&b, "(%q, %d)", c, rank[c])
 	}
 	b.WriteString("]\n")
+	if err == nil && cyclic {
+		status["Locks.lockOrder"] = "CYCLE in the lock acquisition order"
+	} else if err == nil {
+		status["Locks.lockOrder"] = "ok"
+	}
+	if err == nil {
+		status["Locks.lockEdges"] = "ok"
+		facts["lockEdges"] = res.Edges
+	} else {
+		status["Locks.lockEdges"] = "ERROR: " + err.Error()
+	}
 	return b.String()
 }
